@@ -593,6 +593,7 @@ def session_roundtrip(pattern, nstages=1, header_mode="raw"):
         data_len = e.binop(ast.Sub(), start, 32)
         rec = {}
         if header_mode != "raw":
+            comps = st.get("compressors", comps)   # (an empty session creates its only compressor - the header's - at close)
             hcomp = comps[-1]
             raw_items = hcomp.sources[-1] if getattr(hcomp, "sources", None) else []
             rec["blob_at"] = [op[1] for op in fp.ops if op[0] == "write" and isinstance(op[2], S.Blob) and op[2].tag[0] == hcomp.ident][0]
@@ -711,8 +712,9 @@ def units(tier):
     for k in ((1, 2, 3) if tier == "quick" else (1, 2, 3, 4)):
         us.append(Unit("1.aes_compress[%d chunks]" % k, M, "aes_compress", dict(k=k), 1800))
         us.append(Unit("1.aes_decompress[%d chunks]" % k, M, "aes_decompress", dict(k=k), 1800))
-    for ns, reads in ([(1, 2), (2, 2), (3, 1)] if tier == "quick" else [(1, 3), (2, 3), (3, 2), (4, 2)]):
-        us.append(Unit("2.compressor_loop[%d stages,%d reads]" % (ns, reads), M, "compressor_loop", dict(nstages=ns, reads=reads), 1800))
+    for ns, reads in ([(1, 2), (2, 2), (3, 1)] if tier == "quick" else [(1, 3), (2, 3), (3, 2), (4, 1)]):
+        # (measured: 2 stages x 3 reads = 10 484 paths / 19 min, 3 x 2 = 16 065 paths / 24 min; 4 x 2 did not finish in 30 min)
+        us.append(Unit("2.compressor_loop[%d stages,%d reads]" % (ns, reads), M, "compressor_loop", dict(nstages=ns, reads=reads), 3000))
     for k, hon, ns in ([(2, True, 1), (2, False, 1), (3, True, 1), (3, False, 1), (2, False, 2), (2, True, 2)] if tier == "quick" else
                        [(2, True, 1), (2, False, 1), (3, True, 1), (3, False, 1), (2, False, 2), (2, True, 2), (4, True, 1)]):
         us.append(Unit("3.decompressor[%d calls,%s,%d stage]" % (k, "honour" if hon else "ignore", ns), M, "decompressor_calls",
